@@ -7,6 +7,11 @@ from argcommon import *
 SPECIAL = " '\"\\"
 
 
+# program names: the argument file is $HOME/.progargs/<file name of argv[0]>.pa, the environment variable the file name in upper case;
+# names with dots, dashes, digits, upper-case letters, in the current directory, with relative and absolute paths
+PROGS = ["prog", "./bin/tool", "/usr/local/bin/x", "my.tool", "./convert-1.2", "/opt/bin/a.out", "Tool_7", "../x.y.z", "bin/.hidden", "/a/b.c/prog"]
+
+
 def esc(w, scheme):
     if scheme == "bs":
         return "".join(("\\" + ch) if ch in SPECIAL else ch for ch in w)
@@ -93,7 +98,7 @@ def run(tier):
                 ftext = ftext[:-1]                      # last line without a newline
             envstr = join_words(r_, g.spell_line(cfg, epart)) if epart else ""
             same = True
-            acts.append(eval_action(g.spell_line(cfg, apart), presrc=how, filetext=T(ftext), envstr=T(envstr), prog=T(r_.choice(["prog", "./bin/tool", "/usr/local/bin/x"])),
+            acts.append(eval_action(g.spell_line(cfg, apart), presrc=how, filetext=T(ftext), envstr=T(envstr), prog=T(r_.choice(PROGS)),
                                     tag={"k": "src", "line": line_json(line), "same": same}))
             # (c) override: a scalar value from the file is replaced by a later command line value
             sc = [u for u in line if cfg["args"][u[0] - 1]["kind"] in ("int", "str") and u[1] and cfg["args"][u[0] - 1]["card"]["t"] == "dflt"]
@@ -232,9 +237,9 @@ def run(tier):
             argv = ([key] + cmdv) if cmdv else []
             how = r_.choice(["file", "env", "envfile", "envfile"])
             if how == "file":
-                acts.append(eval_action(argv, presrc="file", filetext=T(ftext), envstr=[], prog=T("prog"), tag={"k": "src-card", "how": how}))
+                acts.append(eval_action(argv, presrc="file", filetext=T(ftext), envstr=[], prog=T(r_.choice(PROGS)), tag={"k": "src-card", "how": how}))
             elif how == "env":
-                acts.append(eval_action(argv, presrc="env", filetext=[], envstr=T(join_words(r_, pre_words)), prog=T("prog"), tag={"k": "src-card", "how": how}))
+                acts.append(eval_action(argv, presrc="env", filetext=[], envstr=T(join_words(r_, pre_words)), prog=T(r_.choice(PROGS)), tag={"k": "src-card", "how": how}))
             else:
                 acts.append(eval_action(argv, presrc="env", filetext=[], envstr=T(fkey + " inner.pa"), prog=T("prog"),
                                         files=[{"name": T("inner.pa"), "text": T(ftext)}], tag={"k": "src-card", "how": how}))
